@@ -675,9 +675,47 @@ def r16_10(ctx):
     return r
 
 
+def r16_11(ctx):
+    r = Rule("R16.11", "inheritance is followed: every parent of an interface is resolved, and a re-opened interface keeps the parents of every declaration",
+             "a parent that is skipped (filtered out, or overwritten when the interface is declared again) silently takes its members — props or event names — with it")
+    tr = C.role_or_fail(ctx, r, "type_elements_resolver")
+    if tr:
+        r.saw(tr["path"])
+        n = 0
+        for x in walk(C.family_body(ctx, tr)):
+            if x.get("k") != "MethodCall":
+                continue
+            chain, cur = [], x
+            while cur.get("k") == "MethodCall":
+                chain.append(cur["method"])
+                cur = strip_transparent(cur["recv"])
+            root = expr_str(cur)
+            if chain and chain[-1] in ("iter", "into_iter") and re.search(r"(^|\.)extends$", root) and chain[0] in ("for_each", "collect", "extend", "fold"):
+                n += 1
+                bad = [m_ for m_ in chain if m_ in ("filter", "take", "skip", "take_while", "skip_while", "step_by", "nth", "find", "last", "rev")]
+                r.ob("every parent named in `extends` is resolved" + ("" if n == 1 else " #%d" % n), not bad, C.mloc(tr, x),
+                     "extends.%s" % ".".join(reversed(chain)) if not bad else "the walk over `extends` drops parents (`.%s(..)`): their members are lost without a diagnostic" % bad[0])
+        if n == 0:
+            r.ob("every parent named in `extends` is resolved", None, C.mloc(tr, tr), "no iterator chain over `extends` found (loop form: not decided)")
+    for hb in ctx.facts.hir:
+        if hb["crate"] == VISITOR_CRATE and hb.get("name") == "visit_ts_interface_decl" and not hb.get("mac"):
+            r.saw(hb["path"])
+            bad = None
+            for x in walk(hb["body"]):
+                if x.get("k") == "Assign" and (field_path(strip_transparent(x["l"])) or expr_str(x["l"])).endswith(".extends"):
+                    bad = (x, "assigned")
+                if x.get("k") == "MethodCall" and x.get("method") in ("clone_from", "clear", "truncate") and expr_str(strip_transparent(x["recv"])).endswith(".extends"):
+                    bad = (x, x["method"])
+                if x.get("k") == "Call" and (x.get("callee") or "").endswith(("mem::replace", "mem::swap", "mem::take")) and any(expr_str(a).endswith(".extends") for a in x.get("args", [])):
+                    bad = (x, x["callee"].split("::")[-1])
+            r.ob("a re-opened interface keeps the parents it already has", bad is None, C.mloc(hb, bad[0] if bad else hb),
+                 "`extends` of the merged declaration is only ever extended" if bad is None else "`extends` of the declaration already recorded is %s: the parents of the earlier declaration are forgotten" % bad[1])
+    return r
+
+
 def rules(ctx):
     from . import c17
-    return [__import__('vjsx.rules.c10', fromlist=['x']).field_ratchet('resolved props must not depend on what was resolved before'), r16_1, r16_2, r16_3, r16_4, r16_5, r16_6, r16_7, r16_8, r16_9, r16_10, c17.r17_4]
+    return [__import__('vjsx.rules.c10', fromlist=['x']).field_ratchet('resolved props must not depend on what was resolved before'), r16_1, r16_2, r16_3, r16_4, r16_5, r16_6, r16_7, r16_8, r16_9, r16_10, r16_11, c17.r17_4]
 
 
 EXPLANATION = (
